@@ -1,7 +1,11 @@
+#![allow(dead_code)]
 //! snt-check: property-based checks for surf-n-term (see /verif/DESIGN.md)
 #[macro_use]
 mod engine;
+mod c07;
 mod c08;
+mod c15;
+mod refre;
 
 use engine::{Property, Tier};
 use std::path::Path;
@@ -69,7 +73,9 @@ fn main() {
         });
     }
     let code = match id.as_str() {
+        "C07" => dispatch(c07::C07, &mode),
         "C08" => dispatch(c08::C08, &mode),
+        "C15" => dispatch(c15::C15, &mode),
         _ => {
             eprintln!("unknown property id {id:?}");
             2
